@@ -47,11 +47,34 @@ def protocol(ctx, L):
             'zero / empty values: present optional 0, zero-valued enumerators)', P.sem_body(s))
     u = comp.func('union._copy_implementation')
     us = ws(unparse(u.node))
-    ua = P.authored(u, ['self', 'other'], [('getattr(other, self._discriminated.name)', 'rhs'), ('getattr(self, self._discriminated.name)', 'lhs')])
+    ua = _union_copy_authored(u)
     ub = [ws(unparse(x)) for x in ua.node.body]
-    L.check(ub[:2] == ['self._discriminated = other._discriminated', 'rhs = getattr(other, self._discriminated.name)'],
+    reads = [ws(unparse(n)) for n in ast.walk(ua.node) if isinstance(n, ast.Call) and ws(unparse(n.func)) == 'getattr' and n.args
+             and ws(unparse(n.args[0])) == 'other']
+    L.check(ub[:1] == ['self._discriminated = other._discriminated'] and bool(reads) and
+            set(reads) == {'getattr(other, self._discriminated.name)'},
             'C11c.copy-protocol', 'union._copy_implementation|arm', u.site(), 'the union takes over the discriminated arm and reads '
             'that arm\'s value from the source', us)
+
+
+def _union_copy_authored(f):
+    """After `self._discriminated = other._discriminated` (the first thing the function does, and the only store to that
+    attribute) both spellings name the same descriptor: the clone the rules read uses `self._discriminated` throughout."""
+    ua = P.authored(f, ['self', 'other'], [('getattr(other, self._discriminated.name)', 'rhs'), ('getattr(other, other._discriminated.name)', 'rhs'),
+                                           ('getattr(self, self._discriminated.name)', 'lhs'), ('getattr(self, other._discriminated.name)', 'lhs')])
+    _alias_norm(ua.node)
+    return ua
+
+
+def _alias_norm(fnode, dst='self', src='other'):
+    body = [b for b in fnode.body if not (isinstance(b, ast.Expr) and isinstance(b.value, ast.Constant))]
+    stores_ = [n for n in ast.walk(fnode) if isinstance(n, ast.Attribute) and n.attr == '_discriminated' and isinstance(n.ctx, ast.Store)]
+    if body and ws(unparse(body[0])) == '%s._discriminated = %s._discriminated' % (dst, src) and len(stores_) == 1:
+        for st in body[1:]:
+            for n in ast.walk(st):
+                if isinstance(n, ast.Attribute) and n.attr == '_discriminated' and isinstance(n.value, ast.Name) and n.value.id == src \
+                        and isinstance(n.ctx, ast.Load):
+                    n.value.id = dst
 
 
 def authored_copy_func(comp, q):
@@ -61,7 +84,7 @@ def authored_copy_func(comp, q):
     if q == 'struct.set_field':
         return P.authored(f, ['self', 'name', 'rhs'], [('getattr(self, name)', 'lhs')], [('zip(lhs, rhs)', ['lhs_elem', 'rhs_elem'])])
     if q == 'union._copy_implementation':
-        return P.authored(f, ['self', 'other'], [('getattr(other, self._discriminated.name)', 'rhs'), ('getattr(self, self._discriminated.name)', 'lhs')])
+        return _union_copy_authored(f)
     return P.authored(f, ['self', 'other'], [], [('other._fields.items()', ['name', 'rhs'])])
 
 
@@ -109,7 +132,7 @@ def ownership(ctx, L):
                 continue
             vs = ws(unparse(val))
             conds = [(ws(unparse(t)), p) for t, p, h in path_conditions(f.module, f, node)]
-            if vs in ('rhs',):
+            if vs in ('rhs',) or (q.startswith('union.') and vs == 'getattr(other, self._discriminated.name)'):
                 not_array = ('isinstance(rhs, base_array)', False) in conds or q.startswith('union.')
                 not_composite = ('codec_kind.is_composite(type(rhs))', False) in conds or \
                     ('codec_kind.is_composite(self._discriminated.type)', False) in conds
@@ -136,8 +159,17 @@ def ownership(ctx, L):
         L.check(piece in src, 'C11a.ownership', 'set_field|' + piece, sf.site(), why + ' (expected `%s`)' % piece, '')
     u = authored_copy_func(comp, 'union._copy_implementation')
     us = ws(unparse(u.node))
-    L.check(inn('if codec_kind.is_composite(self._discriminated.type): lhs = getattr(self, self._discriminated.name) lhs.copy_from(rhs) '
-            'else: setattr(self, self._discriminated.name, rhs)', us), 'C11a.ownership', 'union._copy_implementation|ladder', u.site(),
+    want = P._FakeFunc("""
+        self._discriminated = other._discriminated
+        rhs = getattr(other, self._discriminated.name)
+        if codec_kind.is_composite(self._discriminated.type):
+            lhs = getattr(self, self._discriminated.name)
+            lhs.copy_from(rhs)
+        else:
+            setattr(self, self._discriminated.name, rhs)
+        """, ['self', 'other'], comp)
+    _alias_norm(want.node)
+    L.check(P.sem_body(u) == P.sem_body(want), 'C11a.ownership', 'union._copy_implementation|ladder', u.site(),
             'a composite arm is copied recursively, a scalar arm is assigned through the checked setter', us)
     ck = comp.func('codec_kind.is_composite')
     L.check(P.has(ck, 'return issubclass(type_, (struct, union))'), 'C11a.ownership', 'codec_kind.is_composite', ck.site(),
